@@ -17,7 +17,7 @@ def key_fn(case, obs, verdict):
     return ":".join(parts[:2])
 
 
-RULE = ("non-trivial: own cases with >=2 instances and >6 events; sched cases with >=2 instances; alias cases with >=2 shots and at least one definition "
+RULE = ("non-trivial: own cases with >=2 instances and >6 events; sched cases with >=2 instances; ammo cases with >=2 instances and >8 events; alias cases with >=2 shots and at least one definition "
         "carrying metadata/headers; race cases with >=2 instances; distinct = distinct case lines")
 
 
